@@ -54,4 +54,36 @@ def call (depth : Nat) (restart : Option Nat) (lstsq : List V → V → List Rat
     (mix gk (G.take mk) gamma, { F := F, G := G, fkm1 := fk, gkm1 := gk })
   else (gk, { st with fkm1 := fk, gkm1 := gk })
 
+/-! ### the column filter of the least-squares problem
+
+Since `fix: AndersonAcceleration leaves out difference columns that vanish relative to the current increment`:
+
+    Fk = F[:, :mk];  active = norm(Fk, axis=0) > 1e-10 * norm(fk)
+    gamma = zeros(mk);  if any(active): gamma[active] = lstsq(Fk[:, active], fk)
+
+i.e. `call` with the least-squares routine wrapped by `filteredLstsq` (the interface of `call` is unchanged). The norm test is
+evaluated exactly on squares over the first `dim` entries. -/
+
+def normSq (dim : Nat) (v : V) : Rat := sumTo dim fun i => v i * v i
+
+/-- `norm(col) > 1e-10 * norm(fk)` -/
+def isActive (dim : Nat) (fk col : V) : Bool := decide (normSq dim col > (1 / 100000000000000000000 : Rat) * normSq dim fk)
+
+/-- `gamma = zeros(mk); gamma[active] = g` -/
+def scatter : List Bool → List Rat → List Rat
+  | [], _ => []
+  | true :: m, g :: gs => g :: scatter m gs
+  | true :: m, [] => 0 :: scatter m []
+  | false :: m, gs => 0 :: scatter m gs
+
+def filteredLstsq (dim : Nat) (lstsq : List V → V → List Rat) (F : List V) (fk : V) : List Rat :=
+  let mask := F.map (isActive dim fk)
+  if mask.any id then scatter mask (lstsq ((F.zip mask).filterMap fun p => if p.2 then some p.1 else none) fk)
+  else mask.map fun _ => 0
+
+/-- `AndersonAcceleration.__call__` as it is now -/
+def callFiltered (dim depth : Nat) (restart : Option Nat) (lstsq : List V → V → List Rat) (st : St) (gk fk : V)
+    (iteration : Nat) : V × St :=
+  call depth restart (filteredLstsq dim lstsq) st gk fk iteration
+
 end Darsia.Anderson
